@@ -96,13 +96,13 @@ def run(ctx):
     q = ctx.quick
     jobs = [("c15", ["--mode", "targeted"], "targeted.ndjson")]
     if q:
-        jobs += [("c15", ["--mode", "random", "--n", 220, "--maxops", 60], "random.ndjson"),
-                 ("c15", ["--mode", "blockify", "--n", 300], "blockify.ndjson")]
+        jobs += [("c15", ["--mode", "random", "--n", 160, "--maxops", 60], "random.ndjson"),
+                 ("c15", ["--mode", "blockify", "--n", 200], "blockify.ndjson")]
     else:
         jobs += [("c15", ["--mode", "random", "--n", 2500, "--maxops", 60, "--salt", k], "random%d.ndjson" % k) for k in range(4)]
         jobs += [("c15", ["--mode", "blockify", "--n", 12000], "blockify.ndjson")]
     paths = ctx.record_many(jobs, parallel=4)
-    validate(ctx, paths, 6 if q else 4)
+    validate(ctx, paths, 4)
     ctx.extra["language_bound_k"] = K
     ctx.extra["generator_bounds"] = {
         "operations_per_history": "<= 60 (+ a closing merge)", "blocks": "<= ~12", "instructions_per_block": "unbounded by construction, typically <= 6",
